@@ -389,6 +389,118 @@ def gen_index(rng, n_lo=1, n_hi=7, ints=INTS, root=False, bad=False):
     return ents
 
 
+def _copy(x):
+    return json.loads(json.dumps(x))
+
+
+def vary_entry(rng, e, mode):
+    """a successor of entry description e.
+    mode "serialised": changes the loaded flag and/or serialised fields (what an in-place update does);
+    mode "eq-false": equal under == (attrs eq) but different in serialised-or-not eq=False fields (Meta.remote,
+    nlink, is_link, destination, HashInfo.obj_name)"""
+    e = _copy(e)
+    if mode == "eq-false":
+        if e["meta"] is None:
+            e["meta"] = meta_from_index(rng, 0)
+            e["meta"]["remote"] = "origin"  # no meta before: at least differs
+            return e
+        m = e["meta"]
+        m["remote"] = rng.choice([x for x in ("origin", "backup", None, "") if x != m["remote"]])
+        if rng.random() < 0.4:
+            m["nlink"] = m["nlink"] + 1
+            m["is_link"] = not m["is_link"]
+            m["destination"] = "elsewhere"
+        if e["hi"] is not None and rng.random() < 0.4:
+            e["hi"]["obj_name"] = rng.choice(["o1", "o2"])
+        return e
+    what = rng.sample(["loaded", "size", "nfiles", "isexec", "md5", "hash", "meta-none", "remote"], rng.randint(1, 3))
+    for w in what:
+        if w == "loaded":
+            e["loaded"] = rng.choice([x for x in (None, True, False) if x is not e["loaded"]])
+        elif w == "meta-none":
+            if rng.random() < 0.2:
+                e["meta"] = None if e["meta"] is not None else meta_from_index(rng, rng.randrange(N_META))
+        elif w == "hash":
+            if e["hi"] is None:
+                e["hi"] = gen_good_hi(rng)
+            else:
+                e["hi"]["value"] = rng.choice([v for v in HASH_VALUES if v and v != e["hi"]["value"]])
+        elif e["meta"] is not None:
+            m = e["meta"]
+            if w in ("size", "nfiles"):
+                m[w] = rng.choice([x for x in (None, 0, 2, 7) if x != m[w]])
+            elif w == "isexec":
+                m[w] = not m[w]
+            else:
+                m[w] = rng.choice([x for x in (None, "", "x1", "ü") if x != m[w]])
+    return e
+
+
+def gen_alias_history(rng):
+    keys = []
+    for _ in range(rng.randint(1, 3)):
+        k = gen_key(rng, 0 if rng.random() < 0.15 else 1, 2)
+        if k not in keys:
+            keys.append(k)
+    last = {}
+    ops = []
+    for k in keys:
+        e = gen_entry(rng, k)
+        e["key"] = k
+        last[tuple(k)] = e
+        ops.append(["set", k, e])
+    for _ in range(rng.randint(1, 4)):
+        r = rng.random()
+        if r < 0.15:
+            ops.append(["commit"])
+            continue
+        if r < 0.25:
+            ops += [["commit"], ["reopen"]]
+            continue
+        k = rng.choice(keys)
+        if r < 0.65:
+            e = vary_entry(rng, last[tuple(k)], "serialised")
+            ops.append(["mutset", k, e])
+        else:
+            e = vary_entry(rng, last[tuple(k)], "eq-false")
+            ops.append([rng.choice(["set", "mutset"]), k, e])
+        last[tuple(k)] = e
+    ops.append(["commit"])
+    return ops
+
+
+def gen_load_case(rng):
+    files = [("a", impl.md5hex(b"a")), ("sub/b", impl.md5hex(b"b")), ("ü", impl.md5hex(b"")),
+             ("sub/deep/c", impl.md5hex(b"c")), ("z.txt", impl.md5hex(b"zz"))]
+    store = {}
+    ops = []
+    used = set()
+    for _ in range(rng.randint(1, 2)):
+        listing = sorted(rng.sample(files, rng.randint(1, 3)))
+        oid = impl.dir_oid(listing)
+        store[oid] = [list(x) for x in listing]
+        k = gen_key(rng, 1, 2, PARTS_OK[:6])
+        if tuple(k) in used or any(tuple(k)[:len(u)] == u or u[:len(k)] == tuple(k) for u in used):
+            continue
+        used.add(tuple(k))
+        m = meta_from_index(rng, 0)
+        m.update({"isdir": True, "nfiles": rng.choice([None, len(listing)]), "size": rng.choice([None, 0, 5])})
+        ops.append(["set", k, {"key": k, "meta": m, "hi": {"name": "md5", "value": oid},
+                               "loaded": rng.choice([None, False])}])
+    # a plain file entry next to them
+    fk = ["plain", "f"]
+    fm = meta_from_index(rng, 0)
+    fm.update({"size": 3})
+    ops.append(["set", fk, {"key": fk, "meta": fm, "hi": {"name": "md5", "value": impl.md5hex(b"f")}, "loaded": None}])
+    r = rng.random()
+    if r < 0.35:
+        ops += [["commit"], ["reopen"]]      # the directory entry is re-read from its row before _load marks it
+    elif r < 0.6:
+        ops += [["commit"]]
+    ops += [["load"], ["commit"]]
+    return {"family": "sqlite", "store": store, "ops": ops}
+
+
 def key_is_wf(k):
     return len(k) > 0 and all(p and "/" not in p for p in k)
 
@@ -620,39 +732,127 @@ def run_joined(ctx, case):
     return inp, exp, problems, wf, rich
 
 
+def desc_of(e):
+    """a real DataIndexEntry -> the JSON description mk_entry / centry understand"""
+    m, h = e.meta, e.hash_info
+    return {"key": None if e.key is None else list(e.key),
+            "meta": None if m is None else {f: getattr(m, f) for f in FIELDS},
+            "hi": None if h is None else {"name": h.name, "value": h.value, "obj_name": h.obj_name},
+            "loaded": e.loaded}
+
+
+def mutate_to(obj, desc):
+    """update a live entry object IN PLACE (attribute by attribute where the sub-object exists) to `desc`"""
+    obj.loaded = desc["loaded"]
+    if obj.meta is not None and desc["meta"] is not None:
+        for f in FIELDS:
+            setattr(obj.meta, f, desc["meta"][f])
+    else:
+        obj.meta = mk_meta(desc["meta"])
+    if obj.hash_info is not None and desc["hi"] is not None:
+        obj.hash_info.name = desc["hi"]["name"]
+        obj.hash_info.value = desc["hi"]["value"]
+        obj.hash_info.obj_name = desc["hi"].get("obj_name")
+    else:
+        obj.hash_info = mk_hi(desc["hi"])
+
+
 def run_sqlite(ctx, case):
+    """ops: ["set", key, entry]            index[key] = a fresh entry object
+            ["mutset", key, entry]         the entry object last stored under key IN THIS SESSION is updated in place
+                                           to `entry` and stored again (aliasing with the identity cache); without
+                                           such an object: like "set"
+            ["commit"], ["reopen"]         index.commit() ; index.close() + DataIndex.open(path)
+            ["load"]                       the public path: iterate the index with an object storage attached, so
+                                           that DataIndex._load fills unloaded directories, marks them loaded,
+                                           stores them again and commits
+    Every DataIndexTrie.__setitem__ call is recorded (key + snapshot of the value at that moment): the recorded
+    writes are the model's SqSet operations and the oracle's "last write per key"."""
+    import copy
+
     from dvc_data.index import DataIndex
+    from dvc_data.index.index import DataIndexTrie, ObjectStorage
 
     d = ctx.fresh("c20-sqlite")
     path = os.path.join(d, "index.sqlite")
-    si = DataIndex.open(path)
+    odb = None
+    if case.get("store"):
+        store = os.path.join(d, "store")
+        for oid, listing in case["store"].items():
+            impl.plant(store, oid, impl.canon_listing([tuple(x) for x in listing]))
+        odb = impl.local_odb(store)
     committed: dict = {}
     pending: dict = {}
+    live: dict = {}
     terms = []
+    writes = []
+    orig_setitem = DataIndexTrie.__setitem__
+
+    def recording_setitem(self, key, value):
+        writes.append((tuple(key), desc_of(value), copy.deepcopy(value)))
+        return orig_setitem(self, key, value)
+
+    def flush():
+        n = len(writes)
+        for k, desc, snap in writes:
+            terms.append(f"SqSet {ckey(k)} {centry(desc)}")
+            pending[k] = snap
+        del writes[:]
+        return n
+
+    def open_index():
+        idx = DataIndex.open(path)
+        if odb is not None:
+            idx.storage_map.add_cache(ObjectStorage(key=(), odb=odb))
+        return idx
+
+    DataIndexTrie.__setitem__ = recording_setitem
+    si = None
     try:
+        si = open_index()
         for op in case["ops"]:
-            if op[0] == "set":
-                e = mk_entry(op[2])
-                si[tuple(op[1])] = e
-                pending[tuple(op[1])] = e
-                terms.append(f"SqSet {ckey(op[1])} {centry(op[2])}")
+            if op[0] in ("set", "mutset"):
+                k = tuple(op[1])
+                obj = live.get(k) if op[0] == "mutset" else None
+                if obj is None:
+                    obj = mk_entry(op[2])
+                else:
+                    mutate_to(obj, op[2])
+                    ctx.count("sqlite:in-place update stored again")
+                live[k] = obj
+                si[k] = obj
+                flush()
             elif op[0] == "commit":
                 si.commit()
                 committed = dict(pending)
                 terms.append("SqCommit")
+            elif op[0] == "load":
+                for _ in si.iteritems():
+                    pass
+                if flush():
+                    # DataIndex._load commits after storing the directory entry again
+                    committed = dict(pending)
+                    terms.append("SqCommit")
+                    ctx.count("sqlite:directory loaded through DataIndex._load")
             else:
                 si.close()
-                si = DataIndex.open(path)
+                si = open_index()
                 pending = dict(committed)
+                live = {}
                 terms.append("SqReopen")
         before = [(list(k), e) for k, e in si.iteritems()]
+        if flush():
+            committed = dict(pending)
+            terms.append("SqCommit")
         si.close()
         si = DataIndex.open(path)
         after = [(list(k), e) for k, e in si.iteritems()]
     finally:
-        si.close()
+        DataIndexTrie.__setitem__ = orig_setitem
+        if si is not None:
+            si.close()
     impl.rm_rf(d)
-    # oracle: what was committed is what is read back
+    # oracle: the last write per key that was committed is what is read back
     problems = index_problems([(list(k), e) for k, e in committed.items()], after, "sqlite")
     enc = lambda items: ok(vL([vL([vkey(k), ventry(e)]) for k, e in sorted(items, key=lambda ke: keysort(ke[0]))]))  # noqa: E731
     exp = vL([enc(before), enc(after)])
@@ -797,6 +997,12 @@ def gen_all(ctx):
                 ops[at:at] = [["commit"], ["reopen"]]
         ops.append(["commit"])
         fam["sqlite"].append({"family": "sqlite", "ops": ops})
+    # two or more writes to one key within one session (aliasing with the identity cache)
+    for _ in range(ctx.n(30, 300)):
+        fam["sqlite"].append({"family": "sqlite", "ops": gen_alias_history(rng)})
+    # the public path: unloaded directory entries filled by DataIndex._load from an object storage
+    for _ in range(ctx.n(10, 100)):
+        fam["sqlite"].append(gen_load_case(rng))
     for _ in range(ctx.n(60, 500)):
         hn = rng.choice(["md5", "md5-dos2unix"])
         ents = []
